@@ -25,9 +25,9 @@ pub fn def() -> PropDef {
 fn plan(tier: Tier) -> Vec<Unit> {
     match tier {
         Tier::Quick => {
-            let mut v = crate::util::split_budget("roundtrip", 16_000, 400);
-            v.extend(crate::util::split_budget("documents", 16_000, 400));
-            v.extend(crate::util::split_budget("tokens", 4_000, 200));
+            let mut v = crate::util::split_budget("roundtrip", 120_000, 1_000);
+            v.extend(crate::util::split_budget("documents", 160_000, 2_000));
+            v.extend(crate::util::split_budget("tokens", 20_000, 500));
             v
         }
         Tier::Thorough => {
@@ -400,7 +400,9 @@ fn check_tokens(sel: u64, case: &Case, ctx: &mut Ctx) {
     int_tok!(u64, 0, 1, u64::MAX, w as u64);
     int_tok!(u128, 0, 1, u128::MAX, (1u128 << 127) + 5, w);
     // floats: exact binary value (same oracle as C14) or an error for non-finite
-    let f64s = [0.1f64, 1e23, 29998999.0001, -2.5, f64::MAX, f64::MIN_POSITIVE, 5e-324, f64::from_bits(sel), f64::NAN, f64::INFINITY, -0.0];
+    let pw = |k: i32| 2f64.powi(k);
+    let f64s = [0.1f64, 1e23, 29998999.0001, -2.5, f64::MAX, f64::MIN_POSITIVE, 5e-324, f64::from_bits(sel), f64::NAN, f64::INFINITY, -0.0,
+        pw(63), -pw(63), pw(64), pw(62), pw(53), pw(53) + 2.0, pw(31), pw(32), pw(127), pw(128), -pw(64) * 1.5, pw((sel % 140) as i32) * if sel & 1 == 0 { 1.0 } else { -1.0 }, 9007199254740993.0, 4294967296.5];
     for f in f64s {
         let exact = BigDecimal::try_from(f).ok();
         match ctx.guard(|| BigDecimal::deserialize(IntoDeserializer::<E>::into_deserializer(f))) {
@@ -411,7 +413,8 @@ fn check_tokens(sel: u64, case: &Case, ctx: &mut Ctx) {
             }
         }
     }
-    let f32s = [0.1f32, 16777216.0, -7.5, f32::MAX, f32::MIN_POSITIVE, f32::from_bits(sel as u32), f32::NAN, f32::NEG_INFINITY];
+    let f32s = [0.1f32, 16777216.0, -7.5, f32::MAX, f32::MIN_POSITIVE, f32::from_bits(sel as u32), f32::NAN, f32::NEG_INFINITY,
+        2f32.powi(63), -(2f32.powi(63)), 2f32.powi(64), 2f32.powi(31), 2f32.powi(32), 2f32.powi(24), 2f32.powi(127), 2f32.powi((sel % 120) as i32)];
     for f in f32s {
         match ctx.guard(|| BigDecimal::deserialize(IntoDeserializer::<E>::into_deserializer(f))) {
             Err(p) => ctx.fail("token/panic", case, format!("f32 token {:e} panicked: {}", f, p)),
